@@ -1,4 +1,5 @@
 """C15: decoding arbitrary bytes is total (an error or a usable value, never a crash)."""
+import os
 import random
 import vlib
 
@@ -124,6 +125,11 @@ def run(ctx):
     ctx.log("single mutations: %d cases over %d bases" % (len(cases), len(r.tagged.get("BASE", []))))
     ctx.replay(cases, timeout=2400, jobs=12)
     ctx.log("single mutations replayed")
+    if ctx.counters.get("outcome_timeout", 0) > 0:
+        # a decoder has hung under the full watchdog: later harness processes of this run (second stage,
+        # confirmation) start with the short watchdog instead of paying the full one per input again
+        os.environ["VERIF_C15_HANG_SEEN"] = "1"
+        ctx.log("decode hangs seen (%d): short watchdog from here on" % ctx.counters.get("outcome_timeout", 0))
     # 2. random pairs of mutations over larger bases
     va2 = alphabet(rnd, K, 12)
     specs2 = {polyspec([rnd.randint(1, 9) for _ in range(rnd.randint(1, 3))], rnd.randrange(1, 90)) for _ in range(4)}
